@@ -3,6 +3,9 @@ import FV.IoSend
 import FV.AddrIndep
 import FV.EmplaceAccAll
 import FV.IoRetain
+import FV.WalkAddr
+import FV.Props.C03
+import FV.Props.C05
 /-! # C07 — blocking IO delivers the sent sequence under every chunking
 
 Pipe = a script with one entry per `read` / `write` call. "Every interleaving of a sender and a receiver thread over a
@@ -68,6 +71,36 @@ theorem C07_emplaced_is_deliverable (t : Ty) (h : t.WF) (i : Init) (hw : InitWT 
   simp only [Slice.len] at hzle
   simp only [List.length_take]; omega
 
+/-- **C07 ("with equal content").** What the sender specified is what the receiver reads: a representable content emplaced into the
+send buffer, cut to the `size()` bytes that `send` writes, and mapped again at *any* aligned address — wherever those bytes come to
+lie in the receiver's window — validates, has `size()` equal to its length (so dropping the guard consumes exactly the message)
+and reads back, through the accessors, as exactly the content the initialiser specified. With `C07_receiver_delivers` (the byte
+strings handed out are the byte strings sent, under every chunking) this is delivery of the sent *values*, not just of bytes. -/
+theorem C07_sent_content_arrives (t : Ty) (h : t.WF) (i : Init) (hw : InitWT t i) (hr : Rep t i) (s : Slice)
+    (hal : s.addr % t.dict.align = 0) (hlen : sizeSpec t i ≤ s.len) (a' : Nat) (ha' : a' % t.dict.align = 0) :
+    ∃ o c, emplaceU t i s = .ok o ∧ o.res = .ok () ∧ specV t i = .ok c ∧
+      t.dict.validate ⟨a', o.bytes.take (sizeSpec t i)⟩ = .ok () ∧
+      t.dict.size ⟨a', o.bytes.take (sizeSpec t i)⟩ = .ok (o.bytes.take (sizeSpec t i)).length ∧
+      (t.dict.walk ⟨a', o.bytes.take (sizeSpec t i)⟩).map Val.strip = .ok c := by
+  obtain ⟨hacc, hge⟩ := emplaceU_acc i t h hw
+  have hmin : t.dict.minSize ≤ s.len := by omega
+  obtain ⟨o, ho, hlen', hread⟩ := C03_emplace_reads_back t h i hw s hal hmin
+  obtain ⟨o2, ho2, hres, hl2, hv2, hz2⟩ := C07_emplaced_is_deliverable t h i hw hr s hal hlen
+  rw [ho] at ho2; cases ho2
+  obtain ⟨hv, c, hc, hwalk⟩ := hread hres
+  obtain ⟨hiff, hsize⟩ := hacc s hal hmin o ho
+  have hz : t.dict.size ⟨s.addr, o.bytes⟩ = .ok (sizeSpec t i) := hsize hres
+  obtain ⟨_, hloc⟩ := C05_truncation_same_content t h ⟨s.addr, o.bytes⟩ hv (sizeSpec t i) hz
+  obtain ⟨e1, e2⟩ := validate_any_addr t h (o.bytes.take (sizeSpec t i)) s.addr a' hal ha'
+  have ew : t.dict.walk ⟨a', o.bytes.take (sizeSpec t i)⟩ = t.dict.walk ⟨s.addr, o.bytes.take (sizeSpec t i)⟩ :=
+    (Ty.walkAddr t h) a' s.addr _ (by rw [ha', hal])
+  refine ⟨o, c, ho, hres, hc, ?_, ?_, ?_⟩
+  · rw [← e1]; exact hv2
+  · rw [← e2, hl2]; exact hz2
+  · rw [ew]
+    have : (⟨s.addr, o.bytes⟩ : Slice).take (sizeSpec t i) = ⟨s.addr, o.bytes.take (sizeSpec t i)⟩ := rfl
+    rw [← this, hloc]; exact hwalk
+
 /-- **C07 (`retain`).** A guard that is forgotten (`RecvGuard::retain`, or a leaked guard) leaves the message in the window: the
 next `recv` returns the same message, from the same window, without another read. (The harness retains the first guard of every
 receive case and compares.) -/
@@ -80,4 +113,9 @@ theorem C07_retain_returns_same (d : Dict) (evs : List ReadEv) (b : RBuf) (rest 
 example : S1.WF ∧ 0 < S1.dict.minSize := ⟨S1_wf, by decide⟩
 example : recvLoop u16.dict 3 [.deliver 1, .deliver 3, .deliver 9, .deliver 9] ⟨0, 4, 0, []⟩ [1,0,2,0] =
     [.msg [1,0], .msg [2,0], .closed] := by decide
+/-- non-vacuity of `C07_sent_content_arrives`: `S1 { a: 1, b: [7, 8, 9] }` emplaced at address 0 over garbage; its first 12 bytes mapped
+at address 8 read as the specified content -/
+example : (emplaceU S1 (.ustruct [[1,0,0,0]] (.vecArr [[7],[8],[9]])) ⟨0, List.replicate 16 9⟩).bind
+      (fun o => (S1.dict.walk ⟨8, o.bytes.take 12⟩).map Val.strip) = specV S1 (.ustruct [[1,0,0,0]] (.vecArr [[7],[8],[9]])) := by
+  rfl
 end FV.Props
